@@ -144,6 +144,7 @@ type world struct {
 	clients   map[int]*client
 	sidKey    map[wamp.ID]int
 	start     time.Time
+	histCfgs  map[string][]*router.TopicEventHistoryConfig
 	lastSizes map[string]map[string]int
 	pubs      []wamp.ID      // publication ids of the PUBLISHED messages seen so far ({"$pub": j})
 	quit      chan struct{}  // closed at shutdown: releases helper goroutines
@@ -178,11 +179,19 @@ func realmConfig(w *world, cfg map[string]any) *router.RealmConfig {
 		rc.Authorizer = ta
 	}
 	if hs, ok := cfg["history"].([]any); ok {
-		for _, x := range hs {
-			m, _ := x.(map[string]any)
-			rc.TopicEventHistoryConfigs = append(rc.TopicEventHistoryConfigs, &router.TopicEventHistoryConfig{
-				Topic: wamp.URI(strOf(m, "topic", "")), MatchPolicy: strOf(m, "match", ""), Limit: int(num(m["limit"])),
-			})
+		// An embedder that configures several realms alike reuses one slice of history
+		// configurations: equal configurations share the same objects here too.
+		key := jsonKey(hs)
+		if shared, ok := w.histCfgs[key]; ok {
+			rc.TopicEventHistoryConfigs = shared
+		} else {
+			for _, x := range hs {
+				m, _ := x.(map[string]any)
+				rc.TopicEventHistoryConfigs = append(rc.TopicEventHistoryConfigs, &router.TopicEventHistoryConfig{
+					Topic: wamp.URI(strOf(m, "topic", "")), MatchPolicy: strOf(m, "match", ""), Limit: int(num(m["limit"])),
+				})
+			}
+			w.histCfgs[key] = rc.TopicEventHistoryConfigs
 		}
 	}
 	return rc
@@ -191,7 +200,7 @@ func realmConfig(w *world, cfg map[string]any) *router.RealmConfig {
 // newWorld starts a router with one realm (cfg is an object) or several (cfg
 // is {"realms":[...]}).
 func newWorld(cfg map[string]any) (*world, error) {
-	w := &world{clients: map[int]*client{}, sidKey: map[wamp.ID]int{}, start: time.Now(), quit: make(chan struct{})}
+	w := &world{clients: map[int]*client{}, sidKey: map[wamp.ID]int{}, start: time.Now(), quit: make(chan struct{}), histCfgs: map[string][]*router.TopicEventHistoryConfig{}}
 	var rcs []*router.RealmConfig
 	if list, ok := cfg["realms"].([]any); ok {
 		for _, x := range list {
@@ -203,7 +212,11 @@ func newWorld(cfg map[string]any) (*world, error) {
 		rcs = append(rcs, realmConfig(w, cfg))
 	}
 	w.realm = string(rcs[0].URI)
-	r, err := router.NewRouter(&router.Config{RealmConfigs: rcs}, log.New(io.Discard, "", 0))
+	rcfg := &router.Config{RealmConfigs: rcs}
+	if t, ok := cfg["template"].(map[string]any); ok {
+		rcfg.RealmTemplate = realmConfig(w, t)
+	}
+	r, err := router.NewRouter(rcfg, log.New(io.Discard, "", 0))
 	if err != nil {
 		return nil, err
 	}
@@ -379,9 +392,15 @@ func (w *world) join(op map[string]any) string {
 	go func() { defer w.helpers.Done(); errc <- w.r.AttachClient(rs, transportDetails) }()
 	synctest.Wait()
 	giveUp := func() {
-		// the router refused: close the client end too, so that the transport's goroutines exit
-		defer func() { recover() }()
-		c.Close()
+		// The router refused: close the client end too, so that the transport's goroutines exit.
+		// Not on this goroutine: a transport's Close waits on timers, and if the root goroutine of
+		// the bubble blocked on it the virtual clock would jump.
+		w.helpers.Add(1)
+		go func() {
+			defer w.helpers.Done()
+			defer func() { recover() }()
+			c.Close()
+		}()
 	}
 	select {
 	case err := <-errc:
@@ -453,7 +472,12 @@ func (w *world) apply(op map[string]any) (out map[int][]wamp.Message, closed []i
 		c := w.clients[int(num(op["s"]))]
 		if c != nil && !c.dropped {
 			c.dropped = true
-			c.peer.Close()
+			w.helpers.Add(1)
+			go func() { // see giveUp in join: never block the root goroutine on a transport's Close
+				defer w.helpers.Done()
+				defer func() { recover() }()
+				c.peer.Close()
+			}()
 		}
 	case "stall":
 		if c := w.clients[int(num(op["s"]))]; c != nil {
